@@ -1,5 +1,6 @@
 import HapVerif.Model.C17
 import HapVerif.Model.C17Sec
+import HapVerif.Model.C17Cfg
 import HapVerif.Drv.Common
 /-!
 Line protocol of C17 (all lists `,`-separated, `-` = empty):
@@ -11,6 +12,11 @@ Line protocol of C17 (all lists `,`-separated, `-` = empty):
   c:<notAfter>:<sans>|chain:<notAfter>:<sans>`, key `absent|empty|text|certblk|other|stray|ok|okp|pk8`, ca `-|bad|self`
   `=> use=<b> got=.. sign=.. write=.. err=.. metric=.. after=<none|old|new>` (`use`: the controller's own
   `GetTLSSecretPath` accepted the secret; `after`: the Secret object after `Notify`) or `PANIC ...`
+* `cfg <client 0|1> <window> <step;step;...>`: ONE live signer created with a client or not and the given window,
+  then the history: `w/<window>` = `AcmeConfig`, `a/<endpoint>/<emails>/<terms>/<clientOk>` = `AcmeAccount` (`-` = empty
+  string; `clientOk` = `NewClient` succeeds, always `0` in the harness: no ACME directory), `k/<secret>/<now>/<declared>/
+  <crt key err>/<setErr>` = `Notify` at virtual time `now` (fields as in `verify`)
+  `=> <outcome of every check as in verify, `;`-separated | ->`
 * `st <op;op;...>` with `F` | `D:<names>` | `Q:<name>:<chain>:<doms>` | `U:<leader><acct>` | `C`
 * `cyc <cycle;cycle;...>` with `<p|f><leader><acct>/<dirty>/<name:chain:doms+...>`
 * `conv <cycle|cycle|...>` with `<p|f><leader><acct>@<ing&ing...>`,
@@ -282,8 +288,37 @@ def parseIRun (s : String) : Option (List (List QOp × Reload × Bool) × SMap) 
     pure (us, ← parseItems i)
   | _ => none
 
+/-! the live signer: configuration histories (`cfg`) -/
+
+def dashEmpty (s : String) : String := if s = "-" then "" else s
+
+def parseSStep (s : String) : Option SStep :=
+  match s.splitOn "/" with
+  | ["w", w] => w.toInt?.map .config
+  | ["a", e, m, t, ok] => do pure (.account (dashEmpty e) (dashEmpty m) (← parseBool t) (← parseBool ok))
+  | ["k", sec, now, decl, sign, setErr] => do
+    pure (.check { secret := ← parseSecret sec, now := ← now.toInt?, declared := parseNames decl,
+                   sign := ← parseSign sign, setErr := ← parseBool setErr })
+  | _ => none
+
+def showVOuts (os : List VOut) : String := if os.isEmpty then "-" else ";".intercalate (os.map showVOut)
+
+def parseVOuts (s : String) : Option (List VOut) :=
+  if s = "-" then some [] else (s.splitOn ";").mapM parseVOut
+
 def handle (args : List String) (impl : String) : Verdict :=
   match args with
+  | ["cfg", client, win, steps] =>
+    match parseBool client, win.toInt?, parseList parseSStep steps ";" with
+    | some client, some win, some steps =>
+      let s0 : Signer := { client := client, window := win }
+      let m := (srun s0 steps).2
+      match parseVOuts impl with
+      | some os =>
+        { model := showVOuts m, agree := m = os, oracle := oracleHistory s0 steps os,
+          trivial := checksOf steps = 0 }
+      | none => { model := showVOuts m, agree := false, oracle := some "panic-verify" }
+    | _, _, _ => bad "parse-cfg"
   | ["verify", acct, sec, now, win, decl, sign, setErr] =>
     match parseBool acct, parseSecret sec, now.toInt?, win.toInt?, parseSign sign, parseBool setErr with
     | some acct, some sec, some now, some win, some sign, some setErr =>
